@@ -158,6 +158,10 @@ add("ProbabilisticAL_rbf_dict", P.ProbabilisticAL,
     lambda s, ml=NAN: P.ProbabilisticAL(metric="rbf", metric_dict={"gamma": "mean"}, missing_label=ml, random_state=s),
     lambda c: dict(clf=_ctx_clf(c, "nb")), arbitrary_index_ok=True, independent=True, perm=True,
     model_arg="clf", lazy=True, domain=_nb_domain)
+add("ProbabilisticAL_rbf_emptydict", P.ProbabilisticAL,
+    lambda s, ml=NAN: P.ProbabilisticAL(metric="rbf", metric_dict={}, missing_label=ml, random_state=s),
+    lambda c: dict(clf=_ctx_clf(c, "nb")), arbitrary_index_ok=True, independent=True, perm=True,
+    model_arg="clf", lazy=True, domain=_nb_domain)
 add("QBC_KL", P.QueryByCommittee, lambda s, ml=NAN: P.QueryByCommittee(missing_label=ml, random_state=s),
     lambda c: dict(ensemble=clf_bag(c["classes"], c.get("ml", NAN))), arbitrary_index_ok=True,
     model_arg="ensemble")
